@@ -65,10 +65,12 @@ let tok_of_pev = function
   | PIsProc (id, b) -> "I" ^ tok_of_n id ^ ":" ^ tok_of_bool b
   | PSusp b -> "U" ^ tok_of_bool b
   | PReq k -> "R" ^ tok_of_n k ^ ":7:11"
+  | PTerminated -> "X"
 
 let pev_of tok =
   let rest = String.sub tok 1 (String.length tok - 1) in
   match tok.[0] with
+  | 'X' -> PTerminated
   | 'D' -> PDone (bool_of_tok rest)
   | 'I' -> (match String.split_on_char ':' rest with
             | [i; b] -> PIsProc (n_of_tok i, bool_of_tok b) | _ -> failwith "bad I")
@@ -122,10 +124,10 @@ let eval inp obs =
         ((bool_of_tok d, bool_of_tok s), ids) :: script (k - 1) r
       | _ -> failwith "short script" in
     let sc = script (int_of_string nruns) rest in
-    (* split the implementation's log into routine runs *)
+    (* split the implementation's log into routine runs and X markers (external Terminate) *)
     let toks = List.filter (fun t -> t <> "E") obs in
     let runs = List.fold_left (fun acc t -> match acc with
-        | cur :: more when t.[0] <> 'D' -> (t :: cur) :: more
+        | cur :: more when t.[0] <> 'D' && t <> "X" && cur <> ["X"] -> (t :: cur) :: more
         | _ -> [t] :: acc) [] toks in
     let runs = List.rev_map List.rev runs in
     let op_of t = (* I<id>#<op>:<b> *)
@@ -136,22 +138,37 @@ let eval inp obs =
       | _ -> None in
     let seen = ref (-1) and fifo_ok = ref true in
     let events = List.map (fun run ->
+        if run = ["X"] then PTerminate else
         let fresh = List.filter_map (fun t -> match op_of t with
             | Some (op, id) when op > !seen -> Some (op, id) | _ -> None) run in
         match fresh with
         | [] -> PTick
         | [(op, id)] -> if op <> !seen + 1 then fifo_ok := false; seen := op; PChunk (n_of_z (Z.of_int (op * 16 + id)))
         | _ -> fifo_ok := false; PTick) runs in
-    let (_, log) = prun par (script_oracle sc) p_init events in
+    (* a routine run that passed the d.done guard just before Terminate() may log after X:
+       also try every X moved behind the run that follows it *)
+    let rec swaps = function
+      | PTerminate :: e :: r when e <> PTerminate ->
+        List.map (fun t -> PTerminate :: t) (swaps (e :: r)) @ List.map (fun t -> e :: PTerminate :: t) (swaps r)
+      | e :: r -> List.map (fun t -> e :: t) (swaps r)
+      | [] -> [[]] in
+    let cands = swaps events in
     let tok_t = function
       | PIsProc (id, b) -> let i = Z.to_int (z_of_n id) in Printf.sprintf "I%d#%d:%s" (i mod 16) (i / 16) (tok_of_bool b)
       | e -> tok_of_pev e in
-    let mo = List.map tok_t log @ ["E"] in
+    let noX l = List.filter (fun t -> t <> "X") l in
+    let log_of evs = snd (prun par (script_oracle sc) p_init evs) in
+    let good = List.filter (fun evs -> noX (List.map tok_t (log_of evs)) = noX toks) cands in
+    let log = (match good with evs :: _ -> log_of evs | [] -> log_of events) in
+    let mo = (if good <> [] then obs else List.map tok_t log @ ["E"]) in
     let strip t = match String.index_opt t '#' with
       | Some i when t.[0] = 'I' -> String.sub t 0 i ^ String.sub t (String.index t ':') (String.length t - String.index t ':')
       | _ -> t in
     let impl_log = (try Some (List.map (fun t -> pev_of (strip t)) toks) with _ -> None) in
-    let spec = (match impl_log with Some l -> peer_spec_ok par l && !fifo_ok | None -> false) in
+    let spec =
+      if good <> [] then peer_spec_ok par log && !fifo_ok
+      else (* no schedule of the model explains the log: the monitor judges the log as it is *)
+        (match impl_log with Some l -> peer_spec_ok par l && !fifo_ok | None -> false) in
     { default_verdict with model_obs = mo; spec_ok = Some spec; model_spec_ok = peer_spec_ok par log;
       nontrivial = List.exists (fun e -> e = PTick) events && List.exists (function PReq _ -> true | _ -> false) log }
   | _ -> failwith "bad case"
